@@ -89,6 +89,14 @@ def cases(tier, seed):
     hier = hier.replace('.names s q r\n011 1\n1-0 1\n.names q r\n0 1\n', '.names s q t r\n011 1\n1-0 1\n')
     hier += '.model wrap\n.inputs clk u v\n.outputs w\n.subckt cell clk=clk p=u q=v r=m\n.names m u w\n01 1\n10 1\n.end\n'
     out.append({'k': 'blif', 'text': hier, 'K': 4, 'tag': 'hier'})
+    # several latches fed by the same next-state signal, with different initial values
+    for inits in (('0', '1'), ('1', '0'), ('1', '2', '0'), ('', '1'), ('3', '1', '1')):
+        qs = ['q%d' % i for i in range(len(inits))]
+        t = '.model top\n.inputs clk a b\n.outputs %s y\n.names a b n1\n11 1\n' % ' '.join(qs)
+        for q, ini in zip(qs, inits):
+            t += '.latch n1 %s re clk %s\n' % (q, ini)
+        t += '.names %s y\n%s 1\n.end\n' % (' '.join(qs), '1' * len(qs))
+        out.append({'k': 'blif', 'text': t, 'K': 3, 'tag': 'latch-shared-d'})
     # signal names that collide with names the importer makes up (the register of latch output q is internally 'q_reg')
     t = ('.model top\n.inputs clk a b\n.outputs o p\n.latch n1 q re clk 0\n.names a q n1\n10 1\n01 1\n.names a b q_reg\n11 1\n'
          '.names q q_reg o\n11 1\n.names q_reg p\n1 1\n.end\n')
@@ -96,7 +104,7 @@ def cases(tier, seed):
     t2 = t.replace('.names a b q_reg', '.names a b tmp0').replace('q_reg', 'tmp0')
     out.append({'k': 'blif', 'text': t2, 'K': 4, 'tag': 'names:tmp0'})
     # vector ports
-    for n in (2, 3, 12):
+    for n in (1, 2, 3, 12):
         for merge in (True, False):
             ins = ' '.join('a[%d]' % i for i in range(n))
             outs = ' '.join('y[%d]' % i for i in range(n))
@@ -105,7 +113,7 @@ def cases(tier, seed):
                 j = (i * 7 + 3) % n
                 body += '.names a[%d] a[%d] y[%d]\n10 1\n' % (i, j, i) if i != j else '.names a[%d] y[%d]\n0 1\n' % (i, i)
             body += '.names a[%d] a[%d] hi\n10 1\n' % (n - 1, 1 % n) if n > 1 else ''
-            t = '.model top\n.inputs %s x\n.outputs %s hi w\n%s.names y[0] x w\n11 1\n.end\n' % (ins, outs, body)
+            t = '.model top\n.inputs %s x\n.outputs %s%s w\n%s.names y[0] x w\n11 1\n.end\n' % (ins, outs, ' hi' if n > 1 else '', body)
             out.append({'k': 'blif', 'text': t, 'K': 1, 'merge': merge, 'tag': 'vector%d' % n})
     # ISCAS .bench gates of arity 1..4
     for gate in ('AND', 'OR', 'NAND', 'NOR', 'XOR'):
@@ -115,6 +123,10 @@ def cases(tier, seed):
             srcs = ', '.join('i%d' % k for k in range(ar))
             t = ''.join('INPUT(i%d)\n' % k for k in range(ar)) + 'OUTPUT(o)\nOUTPUT(p)\no = %s(%s)\nn = NOT(o)\np = BUFF(n)\n' % (gate, srcs)
             out.append({'k': 'bench', 'text': t, 'K': 1, 'tag': 'bench:%s/%d' % (gate, ar)})
+    # gates whose operands are the same signal
+    for gate in ('AND', 'OR', 'NAND', 'NOR', 'XOR'):
+        t = 'INPUT(a)\nINPUT(b)\nOUTPUT(o)\nOUTPUT(p)\nt = %s(a, a)\no = BUFF(t)\nu = %s(t, t)\np = OR(u, b)\n' % (gate, gate)
+        out.append({'k': 'bench', 'text': t, 'K': 1, 'tag': 'bench:%s/tied' % gate})
     t = 'INPUT(a)\nINPUT(b)\nOUTPUT(q)\nOUTPUT(o)\nq = DFF(n)\nn = XOR(a, q)\no = NAND(q, b)\n'
     out.append({'k': 'bench', 'text': t, 'K': 4, 'tag': 'bench:DFF'})
     out += repo_texts()
@@ -208,6 +220,11 @@ def run_case(case, ob, tier):
     with sym_env([block]):
         rs = run_sim(block, K, v, reg_init=unspecified, mem_init='default', track='io')
     ob.paths += len(rs)
+    if len(rs) == 1 and rs[0].exc is not None and not rs[0].pc:
+        # the imported block cannot be simulated at all (undriven / doubly driven wires ...): the import did not produce
+        # the function the file defines
+        ob.fact('imported-block-simulates', False, site + ':unsimulable', detail='%s: %s' % (type(rs[0].exc).__name__, rs[0].exc))
+        return
     r = simdrv.single_path(rs)
 
     def invar(t):
@@ -271,6 +288,13 @@ def replay(cex):
         block = import_block(case, rec)
     except Exception as e:
         return True, 'importer raised %s: %s' % (type(e).__name__, e)
+    if cex.get('structural') and cex.get('obligation') == 'imported-block-simulates':
+        try:
+            sim = pyrtl.Simulation(block=block)
+            sim.step({w.name: 0 for w in block.wirevector_subset(pyrtl.Input)})
+            return False, 'the imported block simulates'
+        except Exception as e:
+            return True, 'the imported block cannot be simulated: %s: %s\ntext:\n%s' % (type(e).__name__, e, case['text'])
     if cex.get('structural'):
         return True, 'structural fact failed: %r' % (cex.get('detail'),)
     mv = cex.get('model', {})
